@@ -161,6 +161,8 @@ class Real:
         self.graph_id: dict[Any, int] = {}  # spox Graph -> abstract graph id
         self.graphs: dict[int, Any] = {}
         self.ap: Optional[dict] = None
+        # pairs of call sites (abstract ids) for which the constructor returned the SAME node object
+        self.merged: list[tuple[int, int]] = []
 
 
 def _name_outputs(node, nid: int, is_arg: bool):
@@ -174,7 +176,113 @@ def _name_outputs(node, nid: int, is_arg: bool):
             v._rename(f"v{nid}_{k}")
 
 
-def realise_lowlevel(ap: dict, name_vars: bool = True) -> Real:
+_CUSTOM = {}
+
+
+def _custom_classes():
+    """User-defined operators (domain `c04.custom`) standing in for unary / binary / variadic ops."""
+    if _CUSTOM:
+        return _CUSTOM
+    import dataclasses
+    import typing
+
+    from spox import Var
+    from spox._fields import BaseAttributes, BaseInputs, BaseOutputs
+    from spox._node import Node, OpType
+
+    def mk(name, fields):
+        Inputs = dataclasses.make_dataclass("Inputs", fields, bases=(BaseInputs,))
+        Outputs = dataclasses.make_dataclass("Outputs", [("y", Var)], bases=(BaseOutputs,))
+        Attributes = dataclasses.make_dataclass("Attributes", [], bases=(BaseAttributes,))
+        return type(name, (Node,), {
+            "op_type": OpType(name, "c04.custom", 1), "Attributes": Attributes, "Inputs": Inputs, "Outputs": Outputs,
+            "infer_output_types": lambda self: {"y": next(iter(self.inputs.get_vars().values())).type},
+        })
+
+    _CUSTOM["neg"] = mk("KNeg", [("a", Var)])
+    _CUSTOM["add"] = mk("KAdd", [("a", Var), ("b", Var)])
+    _CUSTOM["sum"] = mk("KSum", [("xs", typing.Sequence[Var])])
+    return _CUSTOM
+
+
+# operator kinds per abstract kind: the Builder must place a node by its uses, never by what it is
+N_VARIANTS = {"const": 5, "neg": 6, "add": 5, "sum": 5, "less": 3}
+
+
+def make_value(op, _graph, kind: str, ins: list, nid: int, val=None, pal=None) -> list:
+    """One constructor call for one abstract node. `pal` (an int) picks, per node, one of several
+    operator kinds with the same arity and result type: input-less generators and attribute-only
+    constants, multi-output ops, the ai.onnx.ml domain, user-defined operators. `pal=None`: the
+    plain constructors of the namespace `op`."""
+    v = 0 if pal is None or kind not in N_VARIANTS else (pal * 7919 + nid * 104729 + 13) % N_VARIANTS[kind]
+    if kind == "const":
+        if v == 1:
+            return [op.constant(value_floats=[float(nid)])]
+        if v == 2:
+            return [op.random_normal(shape=[1])]
+        if v == 3:
+            return [op.random_uniform(shape=[1])]
+        if v == 4:
+            return [op.random_normal(shape=[1], seed=float(nid))]
+        return [op.const(np.array([nid], np.float32))]
+    if kind == "init":
+        return [_graph.initializer(np.array([nid], np.float32))]
+    if kind == "consti":
+        return [op.const(int(val))]  # a plain Python int literal
+    if kind == "pconst":
+        return [op.const(val)]  # a plain Python bool / float literal
+    if kind == "castf":
+        return [op.cast(ins[0], to=np.float32)]
+    if kind == "neg":
+        if v == 1:
+            return [op.abs(ins[0])]
+        if v == 2:
+            return [op.identity(ins[0])]
+        if v == 3:
+            import spox.opset.ai.onnx.ml.v3 as ml
+
+            return [ml.scaler(ins[0], offset=[0.0], scale=[1.0])]
+        if v == 4:
+            C = _custom_classes()["neg"]
+            return [C(C.Attributes(), C.Inputs(a=ins[0])).outputs.y]
+        if v == 5:
+            return list(op.dropout(ins[0]))  # two outputs
+        return [op.neg(ins[0])]
+    if kind == "add":
+        if v == 1:
+            return [op.mul(ins[0], ins[1])]
+        if v == 2:
+            return [op.sub(ins[0], ins[1])]
+        if v == 3:
+            C = _custom_classes()["add"]
+            return [C(C.Attributes(), C.Inputs(a=ins[0], b=ins[1])).outputs.y]
+        if v == 4:
+            return [op.max([ins[0], ins[1]])]
+        return [op.add(ins[0], ins[1])]
+    if kind == "sum":
+        if v == 1:
+            return [op.max(ins)]
+        if v == 2:
+            return [op.mean(ins)]
+        if v == 3:
+            C = _custom_classes()["sum"]
+            return [C(C.Attributes(), C.Inputs(xs=ins)).outputs.y]
+        if v == 4:
+            return [op.min(ins)]
+        return [op.sum(ins)]
+    if kind == "less":
+        if v == 1:
+            return [op.greater(ins[0], ins[1])]
+        if v == 2:
+            return [op.equal(ins[0], ins[1])]
+        return [op.less(ins[0], ins[1])]
+    raise ValueError(kind)
+
+
+_VAL_TYPES = {"const": F, "init": F, "consti": I, "neg": F, "add": F, "sum": F, "less": B, "castf": "s"}
+
+
+def realise_lowlevel(ap: dict, name_vars: bool = True, pal=None) -> Real:
     spox, op, _graph, AttrGraph = _spox()
     ty = _types()
     R = Real()
@@ -198,20 +306,8 @@ def realise_lowlevel(ap: dict, name_vars: bool = True) -> Real:
             ins = [outs[i][0] for i in nd["i"]]
             if k == "arg":
                 vs = [spox.argument(ty[nd["ty"]])]
-            elif k == "const":
-                vs = [op.const(np.array([nid], np.float32))]
-            elif k == "init":
-                vs = [_graph.initializer(np.array([nid], np.float32))]
-            elif k == "consti":
-                vs = [op.const(np.int64(nd["val"]))]
-            elif k == "neg":
-                vs = [op.neg(ins[0])]
-            elif k == "add":
-                vs = [op.add(ins[0], ins[1])]
-            elif k == "sum":
-                vs = [op.sum(ins)]
-            elif k == "less":
-                vs = [op.less(ins[0], ins[1])]
+            elif k in ("const", "init", "consti", "pconst", "castf", "neg", "add", "sum", "less"):
+                vs = make_value(op, _graph, k, ins, nid, nd.get("val"), pal)
             elif k == "if":
                 ge, gt = graph(nd["s"][0]), graph(nd["s"][1])
                 vs = list(
@@ -240,6 +336,8 @@ def realise_lowlevel(ap: dict, name_vars: bool = True) -> Real:
             else:
                 raise ValueError(k)
             node = vs[0]._op
+            if node in R.node_id:
+                R.merged.append((R.node_id[node], nid))
             if name_vars:
                 _name_outputs(node, nid, nd["a"])
             outs.append(vs)
@@ -253,7 +351,7 @@ class ScriptError(Exception):
     pass
 
 
-def realise_script(script: dict, name_vars: bool = True) -> Real:
+def realise_script(script: dict, name_vars: bool = True, pal=None) -> Real:
     """Run a script with `if_` / `loop` callbacks. Script:
         {"main": block, "res": [refs]}
         block = [stmt...];  stmt = ["val", kind, [refs]]
@@ -272,6 +370,8 @@ def realise_script(script: dict, name_vars: bool = True) -> Real:
     def reg(node, kind, t, ins, subs, is_arg=False):
         nid = len(ap["nodes"])
         ap["nodes"].append({"k": kind, "ty": t, "a": is_arg, "i": list(ins), "s": list(subs)})
+        if node in R.node_id:
+            R.merged.append((R.node_id[node], nid))
         if name_vars:
             _name_outputs(node, nid, is_arg)
         R.node_id[node] = nid
@@ -291,25 +391,17 @@ def realise_script(script: dict, name_vars: bool = True) -> Real:
             if st[0] == "val":
                 kind, refs = st[1], st[2]
                 ins = [box[r] for r in refs]
-                if kind == "const":
-                    v, t = op.const(np.array([len(box)], np.float32)), F
-                elif kind == "init":
-                    v, t = _graph.initializer(np.array([len(box)], np.float32)), F
-                elif kind == "consti":
-                    v, t = op.const(np.int64(st[3])), I
-                elif kind == "neg":
-                    v, t = op.neg(ins[0]), F
-                elif kind == "add":
-                    v, t = op.add(ins[0], ins[1]), F
-                elif kind == "sum":
-                    v, t = op.sum(ins), F
-                elif kind == "less":
-                    v, t = op.less(ins[0], ins[1]), B
+                val = st[3] if len(st) > 3 else None
+                if kind == "pconst":
+                    t = B if isinstance(val, bool) else "p"
+                elif kind in _VAL_TYPES:
+                    t = _VAL_TYPES[kind]
                 else:
                     raise ScriptError(kind)
+                v = make_value(op, _graph, kind, ins, len(box), val, pal)[0]
                 nid_ = reg(v._op, kind, t, refs, [])
-                if kind == "consti":
-                    ap["nodes"][nid_]["val"] = st[3]
+                if val is not None:
+                    ap["nodes"][nid_]["val"] = val
             elif st[0] == "if":
                 _, cref, eblock, eres, tblock, tres = st
 
